@@ -352,6 +352,9 @@ def check(ctx, rep):
                         f"{sorted(set(bad))} can run although no locals were pushed for this element: the caller's variables are popped away" if bad else "",
                         key=f"R18c|{m.qualname}|pop")
     context_symmetry(ctx, rep, "R18c", tales)
+    rep.rule("R18j", "the compiled content command carries a true structure flag for `structure expr` only (compiler evaluated on 8 arguments): "
+             "the interpreter writes the result unescaped exactly when that flag is true", floor=1)
+    content_flag_obligations(ctx, rep, "R18j", mod)
     rep.rule("R18i", "an element's saved state is taken off the scope stack only after the locals defined on it were popped (every path of every "
              "command handler, with the locals flag set)", floor=1)
     scope_exit_obligations(ctx, rep, "R18i", interps)
@@ -406,6 +409,50 @@ def scope_exit_obligations(ctx, rep, rule, interps):
                     key=f"{rule}|{m.qualname}")
     if not n:
         rep.fail(rule, "TemplateInterpreter", detail="no command handler leaves an element's scope (scopeStack.pop() not found)")
+
+
+
+def content_flag_obligations(ctx, rep, rule, mod):
+    """The interpreter writes a result unescaped when the structure flag of the compiled content command is true: the compiler's
+    parser of `tal:content` / `tal:replace` arguments is evaluated - the flag is true for `structure expr` and false for `expr`,
+    `text expr` and for paths that merely contain a blank."""
+    prog = ctx.prog
+    comp = mod.classes.get("TemplateCompiler")
+    f = prog.resolve_method(comp, "compileCmdContent") if comp else None
+    if f is None or len(f.params) < 2:
+        rep.fail(rule, "TemplateCompiler.compileCmdContent", detail="content command compiler not found")
+        return
+    cases = [("item", False, "item"), ("text item", False, "item"), ("structure item", True, "item"), ("structure a | b", True, "a | b"),
+             ("text a | b", False, "a | b"), ("a | b", False, "a | b"), ("textual item", False, "textual item"), ("string:structure x", False, "string:structure x")]
+    problems, n = [], 0
+    for arg, want_raw, want_expr in cases:
+        w = Walker(prog, ctx.resolver, exact_loops=True, unroll=6, max_paths=2000, assumptions={"self.endTagSymbol": Const(7)}, sticky={"self.endTagSymbol"},
+                   inline=lambda fn, t, d: d < 3 and (t.bound_cls is not None or fn.module.name.startswith("simpletal")) and fn.name not in ("tagAsText",))
+        outs = set()
+        try:
+            env_ = {f.params[1]: Const(arg)}
+            env_.update({p_: Const(0) for p_ in f.params[2:]})
+            for p in w.run(f, comp, env=env_, facts={"self.endTagSymbol": Const(7)}):
+                if p.kind == "return" and p.value is not None and p.value.kind == "const" and isinstance(p.value.value, tuple) and len(p.value.value) == 2 \
+                        and isinstance(p.value.value[1], tuple) and len(p.value.value[1]) >= 3:
+                    a = p.value.value[1]
+                    outs.add((bool(a[1]), a[2]))
+                else:
+                    outs.add(("?", ""))
+        except Exception:
+            outs = {("?", "")}
+        if len(outs) != 1 or next(iter(outs))[0] == "?":
+            continue
+        n += 1
+        raw, expr = next(iter(outs))
+        if raw is not want_raw:
+            problems.append(f"`tal:content=\"{arg}\"` compiles with the structure flag {'set' if raw else 'clear'}: the value is written "
+                            f"{'as markup, unescaped' if raw else 'escaped although structure was asked for'}")
+        elif expr != want_expr:
+            problems.append(f"`tal:content=\"{arg}\"` compiles to the expression {expr!r} instead of {want_expr!r}")
+    rep.add(rule, f"{f.qualname}: the structure flag is set for `structure ...` only [{n} of {len(cases)} evaluated]", not problems and n >= len(cases) // 2,
+            ctx.where(f), "; ".join(problems[:2]) if problems else ("" if n >= len(cases) // 2 else "the walker could not follow the compiler"),
+            key=f"{rule}|content", nontrivial=n > 0)
 
 
 def context_symmetry(ctx, rep, rule, tales):
